@@ -26,7 +26,13 @@
 //! 4. **`hidmerge`** (correspondence with `P3R.Packing.hidMerge` + oracle): the real
 //!    `HidingFriPcs::verify_circuit` on generated opening structures × hiding shapes.
 //!
-//! Files: `c14.cases`, `c14.impl`, `c14m.cases`, `c14m.impl`, `c14.report.json`.
+//! 5. **`friphase`** (correspondence with `P3R.Packing.friPhases` + oracle): the real
+//!    `RecursivePcs::verify_circuit` on one FRI query with generated FRI parameters, folding schedule
+//!    and Merkle cap heights; which openings the built circuit hashes is read off its graph.
+//! 6. **Merkle caps**: campaign setups `<cfg>.<uni|batch>_cap<h>` (2.-3. on proofs whose MMCSs have a
+//!    cap of height `h`), and two static oracles on every honest verifier circuit (`static_oracles`).
+//!
+//! Files: `c14.cases`, `c14.impl`, `c14m.cases`, `c14m.impl`, `c14p.cases`, `c14p.impl`, `c14.report.json`.
 
 use std::collections::{BTreeMap, HashMap, HashSet};
 use std::io::Write;
@@ -448,6 +454,85 @@ pub fn gen_merge_case(r: &mut Rng, cfg: &str) -> MergeCase {
     MergeCase { cfg: cfg.to_string(), open, hid, origin: "gen".into() }
 }
 
+
+/// One `friphase` case: a single FRI query over one committed matrix of maximal height.
+/// `phases`: per commit phase `(log_arity, cap height of its commitment)`.
+#[derive(Clone, Debug, Serialize, Deserialize)]
+pub struct PhaseCase {
+    pub cfg: String,
+    pub lb: usize,
+    pub lf: usize,
+    pub in_cap: usize,
+    pub phases: Vec<(usize, usize)>,
+    pub width: usize,
+    #[serde(default)]
+    pub origin: String,
+}
+
+impl PhaseCase {
+    pub fn line(&self) -> String {
+        let mut t = vec![self.lb, self.lf, self.in_cap, self.phases.len()];
+        for (a, h) in &self.phases {
+            t.push(*a);
+            t.push(*h);
+        }
+        format!("friphase {}", t.iter().map(|x| x.to_string()).collect::<Vec<_>>().join(" "))
+    }
+    pub fn log_max(&self) -> usize {
+        self.phases.iter().map(|p| p.0).sum::<usize>() + self.lf + self.lb
+    }
+    /// log height of the folded codeword of every phase
+    pub fn folded(&self) -> Vec<usize> {
+        let mut cur = self.log_max();
+        self.phases.iter().map(|p| { cur -= p.0; cur }).collect()
+    }
+    /// every cap fits its tree (what an honest prover produces: the native MMCS clamps the cap
+    /// height to the tree)
+    pub fn caps_fit(&self) -> bool {
+        self.in_cap <= self.log_max() && self.phases.iter().zip(self.folded()).all(|(p, f)| p.1 <= f)
+    }
+}
+
+/// FRI parameters as configured in practice (`log_blowup` 1-3, rarely 0 to reach the loop's
+/// `log_folded_height == 0` special case), 1-4 phases of log-arity 1-3, cap heights: none, the
+/// whole tree, one level below, anything in between, rarely one level too many (refused).
+pub fn gen_phase_case(r: &mut Rng, cfg: &str) -> PhaseCase {
+    let lb = *r.pick(&[1usize, 1, 1, 2, 2, 2, 3, 0]);
+    let lf = *r.pick(&[0usize, 0, 0, 1, 2]);
+    let n = r.range(1, 4);
+    let arities: Vec<usize> = (0..n).map(|_| *r.pick(&[1usize, 1, 1, 2, 3])).collect();
+    let mut c = PhaseCase { cfg: cfg.to_string(), lb, lf, in_cap: 0, phases: arities.iter().map(|a| (*a, 0)).collect(), width: r.range(1, 3), origin: "gen".into() };
+    let folded = c.folded();
+    let uniform = if r.chance(1, 2) { Some(r.range(0, 6)) } else { None }; // one MMCS cap height, clamped per tree (native behaviour)
+    let cap = |r: &mut Rng, f: usize| -> usize {
+        let h = match uniform {
+            Some(u) => u.min(f),
+            None => match r.range(0, 9) {
+                0 | 1 => 0,
+                2 | 3 | 4 => f,
+                5 => f.saturating_sub(1),
+                6 => f + 1,
+                _ => r.range(0, f),
+            },
+        };
+        h.min(6)
+    };
+    for (k, f) in folded.iter().enumerate() {
+        c.phases[k].1 = cap(r, *f);
+    }
+    c.in_cap = cap(r, c.log_max());
+    c
+}
+
+fn run_friphase(c: &PhaseCase) -> Option<String> {
+    match c.cfg.as_str() {
+        "bb_plain" => Some(bb_plain::friphase(c.lb, c.lf, c.in_cap, &c.phases, c.width)),
+        "bb_hid" => Some(bb_hid::friphase(c.lb, c.lf, c.in_cap, &c.phases, c.width)),
+        "bb_salted" => Some(bb_salted::friphase(c.lb, c.lf, c.in_cap, &c.phases, c.width)),
+        _ => None,
+    }
+}
+
 fn run_hidmerge(c: &MergeCase) -> Option<String> {
     match c.cfg.as_str() {
         "bb_hid" => Some(bb_hid::hidmerge(&c.open, &c.hid)),
@@ -508,6 +593,8 @@ pub struct CampaignRes {
     pub baseline_ok: bool,
     pub baseline_note: String,
     pub perts: Vec<Pert>,
+    /// static oracles on the honest verifier circuit: (class prefix, label of the input)
+    pub statics: Vec<(String, String)>,
     pub secs: f64,
 }
 
@@ -516,7 +603,8 @@ pub static ONLY_LABEL: std::sync::OnceLock<String> = std::sync::OnceLock::new();
 /// `--op O` (with `--label L`): apply only the structural mutation `O` to container `L`.
 pub static ONLY_OP: std::sync::OnceLock<String> = std::sync::OnceLock::new();
 
-/// Class suffix of a campaign setup: `bb_hid.uni` → `uni-zk`, `bb_plain.tables` → `tables-plain`.
+/// Class suffix of a campaign setup: `bb_hid.uni` → `uni-zk`, `bb_plain.tables` → `tables-plain`,
+/// `bb_salted.batch_cap2` → `batch_cap2-zk`.
 pub fn setup_class(setup: &str) -> String {
     let (cfg, part) = setup.split_once('.').unwrap_or((setup, ""));
     format!("{part}-{}", if cfg == "bb_plain" { "plain" } else { "zk" })
@@ -558,8 +646,19 @@ mod bb_plain {
     pub fn perm_config() -> p3_recursion::Poseidon2Config {
         p3_recursion::Poseidon2Config::BABY_BEAR_D4_W16
     }
-    pub fn make_config(_seed: u64) -> SC {
-        make_test_config()
+    pub fn make_config(seed: u64) -> SC {
+        make_config_cap(seed, 0)
+    }
+    /// `make_test_config` with a Merkle cap of height `cap` on both MMCSs (input and FRI commit phase)
+    pub fn make_config_cap(_seed: u64, cap: usize) -> SC {
+        let perm = default_babybear_poseidon2_16();
+        let hash = MyHash::new(perm.clone());
+        let compress = MyCompress::new(perm.clone());
+        let val_mmcs = ValMmcs::new(hash, compress, cap);
+        let challenge_mmcs = ChMmcs::new(val_mmcs.clone());
+        let fri_params = FriParameters::new_testing(challenge_mmcs, 0);
+        let pcs = ThePcs::new(Dft::default(), val_mmcs, fri_params);
+        SC::new(pcs, Challenger::new(perm))
     }
     pub fn enable_perm(cb: &mut p3_circuit::CircuitBuilder<Challenge>) {
         cb.enable_poseidon2_perm::<p3_poseidon2_circuit_air::BabyBearD4Width16, _>(
@@ -617,11 +716,14 @@ mod bb_hid {
         p3_recursion::Poseidon2Config::BABY_BEAR_D4_W16
     }
     pub fn make_config(seed: u64) -> SC {
+        make_config_cap(seed, 0)
+    }
+    pub fn make_config_cap(seed: u64, cap: usize) -> SC {
         use rand::SeedableRng;
         let perm = default_babybear_poseidon2_16();
         let hash = MyHash::new(perm.clone());
         let compress = MyCompress::new(perm.clone());
-        let val_mmcs = ValMmcs::new(hash, compress, 0);
+        let val_mmcs = ValMmcs::new(hash, compress, cap);
         let challenge_mmcs = ChMmcs::new(val_mmcs.clone());
         let fri_params = FriParameters::new_testing(challenge_mmcs, 0);
         let pcs = ThePcs::new(Dft::default(), val_mmcs, fri_params, 2, rand::rngs::SmallRng::seed_from_u64(seed));
@@ -695,11 +797,14 @@ mod bb_salted {
         p3_recursion::Poseidon2Config::BABY_BEAR_D4_W16
     }
     pub fn make_config(seed: u64) -> SC {
+        make_config_cap(seed, 0)
+    }
+    pub fn make_config_cap(seed: u64, cap: usize) -> SC {
         use rand::SeedableRng;
         let perm = default_babybear_poseidon2_16();
         let hash = MyHash::new(perm.clone());
         let compress = MyCompress::new(perm.clone());
-        let val_mmcs = ValMmcs::new(hash, compress, 0, rand::rngs::SmallRng::seed_from_u64(seed + 10));
+        let val_mmcs = ValMmcs::new(hash, compress, cap, rand::rngs::SmallRng::seed_from_u64(seed + 10));
         let challenge_mmcs = ChMmcs::new(val_mmcs.clone());
         let fri_params = FriParameters::new_testing(challenge_mmcs, 0);
         let pcs = ThePcs::new(Dft::default(), val_mmcs, fri_params, 2, rand::rngs::SmallRng::seed_from_u64(seed));
@@ -811,6 +916,7 @@ pub fn main(args: &crate::Args) {
     let seed = args.u64("seed", 1);
     let shapes = args.u64("shapes", 50) as usize;
     let merges = args.u64("merges", 0) as usize;
+    let n_phase_cases = args.u64("phases", 0) as usize;
     let per_kind = args.u64("per-kind", 1) as usize;
     let do_campaign = args.u64("campaign", 1) == 1;
     let which = args.str("setups", "all");
@@ -838,30 +944,57 @@ pub fn main(args: &crate::Args) {
     // campaign runs on worker threads while the sentinel cases run here
     let campaign_handles: Vec<std::thread::JoinHandle<Vec<CampaignRes>>> = if do_campaign {
         let mut hs = vec![];
-        for (i, cfg) in ["bb_plain", "bb_hid", "bb_salted"].iter().enumerate() {
-            let cfg = cfg.to_string();
-            let which = which.clone();
-            let s = seed.wrapping_mul(31).wrapping_add(i as u64);
-            for part in ["uni", "batch", "tables"] {
-                if part == "tables" && cfg != "bb_plain" {
-                    continue;
+        // Merkle cap heights of the additional setups (`<cfg>.<uni|batch>_cap<h>`): `h` = both the
+        // uni and the batch setup, `uh` / `bh` = only one of them
+        let caps: Vec<(bool, bool, usize)> = args
+            .str("caps", "1,2,3,4,8")
+            .split(',')
+            .filter_map(|c| {
+                let c = c.trim();
+                let (u, b, n) = if let Some(r) = c.strip_prefix('u') { (true, false, r) } else if let Some(r) = c.strip_prefix('b') { (false, true, r) } else { (true, true, c) };
+                n.parse::<usize>().ok().filter(|h| *h > 0).map(|h| (u, b, h))
+            })
+            .collect();
+        let cfg_names = ["bb_plain", "bb_hid", "bb_salted"];
+        let mut todo: Vec<(usize, String)> = vec![];
+        if which == "all" {
+            for (i, _) in cfg_names.iter().enumerate() {
+                let mut parts: Vec<String> = vec!["uni".into(), "batch".into()];
+                if i == 0 {
+                    parts.push("tables".into());
                 }
-                let name = format!("{cfg}.{part}");
-                if which != "all" && !which.split(',').any(|w| w == name) {
-                    continue;
+                for (u, b, c) in &caps {
+                    if *u {
+                        parts.push(format!("uni_cap{c}"));
+                    }
+                    if *b {
+                        parts.push(format!("batch_cap{c}"));
+                    }
                 }
-                let cfg = cfg.clone();
-                hs.push(
-                    std::thread::Builder::new()
-                        .stack_size(64 << 20)
-                        .spawn(move || match cfg.as_str() {
-                            "bb_plain" => bb_plain::campaign(s, per_kind, part),
-                            "bb_hid" => bb_hid::campaign(s, per_kind, part),
-                            _ => bb_salted::campaign(s, per_kind, part),
-                        })
-                        .unwrap(),
-                );
+                todo.extend(parts.into_iter().map(|p| (i, p)));
             }
+        } else {
+            // explicitly named setups (replay): any cap height
+            for w in which.split(',') {
+                if let Some((c, p)) = w.split_once('.') {
+                    if let Some(i) = cfg_names.iter().position(|n| *n == c) {
+                        todo.push((i, p.to_string()));
+                    }
+                }
+            }
+        }
+        for (i, part) in todo {
+            let s = seed.wrapping_mul(31).wrapping_add(i as u64);
+            hs.push(
+                std::thread::Builder::new()
+                    .stack_size(64 << 20)
+                    .spawn(move || match i {
+                        0 => bb_plain::campaign(s, per_kind, &part),
+                        1 => bb_hid::campaign(s, per_kind, &part),
+                        _ => bb_salted::campaign(s, per_kind, &part),
+                    })
+                    .unwrap(),
+            );
         }
         hs
     } else {
@@ -870,6 +1003,7 @@ pub fn main(args: &crate::Args) {
 
     let mut todo: Vec<Case> = vec![];
     let mut merge_todo: Vec<MergeCase> = vec![];
+    let mut phase_todo: Vec<PhaseCase> = vec![];
     if let Some(dir) = args.opt("corpus") {
         let mut files: Vec<_> = std::fs::read_dir(&dir).map(|d| d.filter_map(|e| e.ok()).map(|e| e.path()).collect()).unwrap_or_default();
         files.sort();
@@ -877,6 +1011,13 @@ pub fn main(args: &crate::Args) {
             let Ok(txt) = std::fs::read_to_string(&f) else { continue };
             let Ok(v) = serde_json::from_str::<Value>(&txt) else { continue };
             let v = if v.get("cfg").is_some() { v } else { v["replay"].clone() };
+            if v.get("phases").is_some() {
+                if let Ok(mut c) = serde_json::from_value::<PhaseCase>(v) {
+                    c.origin = format!("corpus:{}", f.file_name().unwrap().to_string_lossy());
+                    phase_todo.push(c);
+                }
+                continue;
+            }
             if v.get("open").is_some() {
                 if let Ok(mut c) = serde_json::from_value::<MergeCase>(v) {
                     c.origin = format!("corpus:{}", f.file_name().unwrap().to_string_lossy());
@@ -998,6 +1139,76 @@ pub fn main(args: &crate::Args) {
     mcases_f.flush().unwrap();
     mimpl_f.flush().unwrap();
 
+
+    // ---- friphase correspondence (`P3R.Packing.friPhases` vs the commit-phase loop of the real
+    // `verify_fri_circuit`, reached through `RecursivePcs::verify_circuit`; answer read off the
+    // graph of the built circuit)
+    let mut pcases_f = std::io::BufWriter::new(std::fs::File::create(format!("{out}/c14p.cases")).unwrap());
+    let mut pimpl_f = std::io::BufWriter::new(std::fs::File::create(format!("{out}/c14p.impl")).unwrap());
+    let mut phase_rng = Rng::new(seed ^ 0x5048_4153);
+    for i in 0..n_phase_cases {
+        let mut r = phase_rng.fork();
+        phase_todo.push(gen_phase_case(&mut r, ["bb_plain", "bb_salted", "bb_hid", "bb_salted"][i % 4]));
+    }
+    let mut phase_evals = 0u64;
+    let mut phase_distinct = HashSet::new();
+    for c in &phase_todo {
+        let Some(ans) = run_friphase(c) else {
+            bump(&mut hist, "phase.skipped.bad-cfg");
+            continue;
+        };
+        phase_evals += 1;
+        let line = c.line();
+        writeln!(pcases_f, "{line}").unwrap();
+        writeln!(pimpl_f, "{ans}").unwrap();
+        phase_distinct.insert(format!("{} {}", c.cfg, line));
+        bump(&mut hist, &format!("phase.cfg.{}", c.cfg));
+        bump(&mut hist, &format!("phase.log_blowup.{}", c.lb));
+        bump(&mut hist, &format!("phase.phases.{}", c.phases.len()));
+        let folded = c.folded();
+        for ((_, h), f) in c.phases.iter().zip(&folded) {
+            bump(&mut hist, if *h == 0 { "phase.cap.none" } else if h == f { "phase.cap.whole-tree" } else if h > f { "phase.cap.too-high" } else { "phase.cap.partial" });
+        }
+        bump(&mut hist, &format!("phase.answer.{}", if let Some(rest) = ans.strip_prefix("friphase in=") { if rest.contains('f') { "some-fold-only" } else if rest.contains('x') { "inconsistent" } else { "all-mmcs" } } else { ans.split(':').next().unwrap_or("").trim_start_matches("friphase ") }));
+        if c.origin.starts_with("corpus:") {
+            corpus_notes.push(format!("{} -> {}", c.origin, ans));
+        }
+        // oracle (independent of the model): with log_blowup + log_final_poly_len >= 1 no folded
+        // codeword has a single row, so every opening of the query must be hashed and compared with
+        // its commitment, whatever the caps; and caps that fit their trees must not be refused
+        let replay = serde_json::to_value(c).unwrap();
+        if let Some(rest) = ans.strip_prefix("friphase in=") {
+            let (vin, vph) = rest.split_once(" ph=").unwrap_or((rest, ""));
+            if c.lb + c.lf >= 1 {
+                if vin != "m" {
+                    violations.push(json!({"property":"C14","kind":"friphase","class":"fri-opening-not-verified:input",
+                        "detail": {"answer": ans, "cfg": c.cfg, "what": "the input opening of the query is not hashed / compared with its commitment"},
+                        "line": line, "replay": replay}));
+                }
+                for (k, v) in vph.split(',').enumerate() {
+                    if v != "m" && !v.is_empty() {
+                        let h = c.phases.get(k).map_or(0, |p| p.1);
+                        let f = folded.get(k).copied().unwrap_or(0);
+                        let rel = if h == 0 { "no-cap" } else if h == f { "tree-inside-cap" } else if h > f { "cap-above-tree" } else { "partial-cap" };
+                        violations.push(json!({"property":"C14","kind":"friphase","class":format!("fri-opening-not-verified:commit-phase:{rel}"),
+                            "detail": {"answer": ans, "cfg": c.cfg, "phase": k, "log_folded_height": f, "cap_height": h,
+                                       "what": if v == "f" { "sibling values reach no hash (fold equation only); salt, if any, is an operand of nothing" } else { "siblings and salt disagree" }},
+                            "line": line, "replay": replay}));
+                        break;
+                    }
+                }
+            }
+        } else if c.caps_fit() {
+            violations.push(json!({"property":"C14","kind":"friphase","class":"fri-fitting-cap-refused",
+                "detail": {"answer": ans, "cfg": c.cfg}, "line": line, "replay": replay}));
+        }
+        if samples.len() < 10 && phase_evals % 53 == 1 {
+            samples.push(json!({"case": line, "cfg": c.cfg, "origin": c.origin, "impl": ans}));
+        }
+    }
+    pcases_f.flush().unwrap();
+    pimpl_f.flush().unwrap();
+
     // campaign results
     let mut campaign = vec![];
     let mut perturbations = 0u64;
@@ -1016,6 +1227,21 @@ pub fn main(args: &crate::Args) {
             if !r.baseline_ok {
                 violations.push(json!({"property":"C14","kind":"campaign","class":format!("honest-proof-not-accepted:{}", setup_class(&r.setup)),
                     "detail": r.baseline_note, "replay": {"setup": r.setup, "seed": seed, "label": ""}}));
+            }
+            let mut static_seen: HashSet<String> = HashSet::new();
+            for (prefix, label) in &r.statics {
+                let class = format!("{prefix}:{}", kind_of(label));
+                bump(&mut hist, &format!("static.{prefix}"));
+                if static_seen.insert(class.clone()) {
+                    violations.push(json!({"property":"C14","kind":"static","class":class,
+                        "detail": {"setup": r.setup, "input": label,
+                                   "what": match prefix.as_str() {
+                                       "unwired-input" => "allocated input of the honest verifier circuit is an operand of no operation",
+                                       "input-not-hash-bound" => "no dataflow path from this input into a Poseidon permutation (neither absorbed by the transcript nor hashed into a Merkle leaf)",
+                                       _ => "private input of the verifier circuit that is not a named proof element",
+                                   }},
+                        "replay": {"setup": r.setup, "seed": seed, "label": label}}));
+                }
             }
             let mut kinds: BTreeMap<String, (u64, u64)> = BTreeMap::new();
             let mut shape_kinds: BTreeMap<String, (u64, u64, u64)> = BTreeMap::new();
@@ -1101,7 +1327,7 @@ pub fn main(args: &crate::Args) {
                 }
             }
             campaign.push(json!({"setup": r.setup, "packed_positions": r.positions, "baseline_ok": r.baseline_ok,
-                "baseline_note": r.baseline_note, "perturbations": r.perts.len() as u64 - shape_perts - shape_followups, "secs": r.secs,
+                "baseline_note": r.baseline_note, "static_flagged": r.statics.len(), "perturbations": r.perts.len() as u64 - shape_perts - shape_followups, "secs": r.secs,
                 "shape_sites": r.shape_sites, "shape_perturbations": shape_perts, "shape_followup_perturbations": shape_followups, "shape_accepted": shape_accepted, "shape_circuit_panics": shape_panics,
                 "kinds": kinds.iter().map(|(k, v)| json!({"kind": k, "perturbed": v.0, "native_rejected": v.1})).collect::<Vec<_>>(),
                 "shape_kinds": shape_kinds.iter().map(|(k, v)| json!({"kind": k, "mutated": v.0, "native_rejected": v.1, "circuit_rejected": v.2})).collect::<Vec<_>>()}));
@@ -1116,6 +1342,7 @@ pub fn main(args: &crate::Args) {
     });
     let report = json!({"evaluations": evaluations, "distinct": distinct.len(), "inputs_checked": inputs_checked,
         "merge_evaluations": merge_evals, "merge_distinct": merge_distinct.len(),
+        "phase_evaluations": phase_evals, "phase_distinct": phase_distinct.len(),
         "perturbations": perturbations, "hist": hist, "violations": violations, "samples": samples, "seed": seed,
         "campaign": campaign, "corpus_notes": corpus_notes});
     std::fs::write(format!("{out}/c14.report.json"), serde_json::to_string_pretty(&report).unwrap()).unwrap();
